@@ -565,8 +565,6 @@ func (c *Ctx) QuerySliced(g *Goal) string {
 		}
 	}
 	var b bytes.Buffer
-	b.WriteString("(set-option :produce-models true)\n(set-logic ALL)\n")
-	b.WriteString(c.Prelude)
 	for _, d := range c.Extra {
 		b.WriteString(d)
 		b.WriteString("\n")
@@ -587,7 +585,8 @@ func (c *Ctx) QuerySliced(g *Goal) string {
 	b.WriteString("; ---- goal " + g.Name + "\n")
 	fmt.Fprintf(&b, "(assert (not %s))\n", Implies(T(SBool, g.Guard), T(SBool, g.Body)).S)
 	b.WriteString("(check-sat)\n")
-	return b.String()
+	rest := b.String()
+	return "(set-option :produce-models true)\n(set-logic ALL)\n" + slicePrelude(c.Prelude, rest) + rest
 }
 
 // ---------------------------------------------------------------------
@@ -994,8 +993,10 @@ func discharge(c *Ctx, goals []*Goal, o dischargeOpts) {
 				return
 			}
 			to := o.Timeout
-			if g.ExpectSat && to > 3*time.Second {
-				to = 3 * time.Second
+			if g.ExpectSat && to > 1500*time.Millisecond {
+				// vacuity guards: an inconsistent context is refuted at once; a model of the quantified
+				// prelude is rarely found, and "unknown" is accepted anyway
+				to = 1500 * time.Millisecond
 			}
 			best, all := race(q, o.Workdir, g.Name, to, o.All && !g.ExpectSat)
 			g.Solver = best.Solver
